@@ -167,9 +167,18 @@ static inline void *psDynBufPrependStr(psDynBuf_t *db, const char *s)
 static inline void *psDynBufAppendOctets(psDynBuf_t *db, const void *data,
     size_t len)
 {
-    void *loc = psDynBufAppendSize(db, len);
+    void *loc;
 
-    if (loc)
+    if (data == NULL && len > 0)
+    {
+        /* Typically the result of a failed allocation or detach that the
+           caller passes straight on: propagate it through the sticky
+           error state instead of copying from NULL. */
+        db->err = 1;
+        return NULL;
+    }
+    loc = psDynBufAppendSize(db, len);
+    if (loc && len > 0)
     {
         Memcpy(loc, data, len);
     }
